@@ -118,7 +118,8 @@ NEWNAMES = ["newf", "raw", "~", "@L5000", "a/b", "raw/newm", "INDEX", "new.f", "
 INFIELDS = ["raw", "nosuch", "~", "carray", "@L5000", "r16", "sarray", "lcbad"]
 POOL = {
     "l": [0, 1, -1, -2, 5, 49, 50, 51, 1 << 31, 1 << 61, 1 << 62, (1 << 62) + 1, I63 - 1, I63 - 2, -I63, -I63 + 1, -(1 << 62), (I63 - 1) // 2 + 1],
-    "z": [0, 1, 2, 5, 100, 1 << 31, 1 << 32, 1 << 61, I63 - 1, I63, I64 - 1, I64 - 2],
+    # no mid-size counts (2^31..2^40): the library would really allocate them, which only measures the allocator
+    "z": [0, 1, 2, 5, 100, 1 << 16, 1 << 61, I63 - 1, I63, I64 - 1, I64 - 2],
     "u": [0, 1, 2, 3, 4, 5, 1 << 32, I63, I64 - 1, I64 - 2, I64 - 3],
     "i": [0, 1, -1, 2, 3, 5, 6, 7, 63, 64, 65, (1 << 31) - 1, -(1 << 31), 100, 17, 19],
     "t": [0, 1, 0x21, 0x28, 0x88, 0x110, 0x48, 0xfa0, 0x208, 7],
@@ -291,8 +292,18 @@ def main():
         "directory listing with content hashes); error string/count and I/O pointers are excluded as the property allows",
     ]
     try:
-        impl = vlib.build_impl("asan", "-fsanitize-recover=signed-integer-overflow,shift")
-        exe = vlib.build_harness(impl, os.path.join(V, "harness/C10/api.c"))
+        for attempt in range(3):
+            # the shared cache is pruned by concurrent checks; a build can lose its directory under its feet
+            try:
+                impl = vlib.build_impl("asan", "-fsanitize-recover=signed-integer-overflow,shift")
+                exe0 = vlib.build_harness(impl, os.path.join(V, "harness/C10/api.c"))
+                break
+            except (vlib.BuildError, OSError):
+                if attempt == 2:
+                    raise
+        # private copy: the shared build cache may be pruned by concurrent checks while this one runs
+        exe = os.path.join(vlib.scratch("verif-C10-exe-"), "api")
+        shutil.copy(exe0, exe)
         ok, log = vlib.coq_make(["C10/Calls.vo", "C10/Recurse.vo", "C10/Guards.vo"])
         drv = vlib.build_ocaml_driver("C10", "C10/Extract.v", "ocaml/C10/driver.ml") if ok else None
     except vlib.BuildError as e:
@@ -425,7 +436,10 @@ def main():
                 acc = M.q("frag %d 2" % i) == "1"
                 addA(op, (i,), {"pred": None, "accept": acc, "truth": 0 <= i < 2, "tag": "frag"})
                 nontrivial.add((op, i))
+    import time as _t
+    t_a = _t.time()
     resA = run_cases(exe, A)
+    chk.notes.append("phase A: %d cases in %.1fs" % (len(A), _t.time() - t_a))
     chk.cov["evaluations"] += len(A)
     guard_dis = 0
     for c in A:
@@ -557,7 +571,9 @@ def main():
         sweep = keep + rng.sample(rest, max(0, 9000 - len(keep)))
     for k, c in enumerate(sweep):
         c["id"] = "B%d" % k
+    t_b = _t.time()
     resB = run_cases(exe, sweep)
+    chk.notes.append("phase B: %d tuples in %.1fs" % (len(sweep), _t.time() - t_b))
     chk.cov["evaluations"] += len(sweep) * REPS
     nfail_calls = 0
     viol = {}
